@@ -100,6 +100,24 @@ def c01_probes() -> list[Item]:
                        ("PUSH", 64), ("PUSH", 0x40), ("PUSH", 0), ("PUSH", 0), ("PUSH", 0), ("PUSH", CALLEE), ("PUSH", 0xFFFFF), "CALL", ("PUSH", 0x80), "MSTORE",
                        ("PUSH", 0x60), ("PUSH", 0x40), "RETURN"],
                       accounts={CALLEE: cal}, inputs=[{"cd0": 0, "cd1": 0}, {"cd0": 7, "cd1": 9}, {"cd0": (1 << 256) - 1, "cd1": 1 << 255}]))
+    # RETURNDATACOPY from a non-zero offset of the return data (three words: 0xAAAA, cd0, cd1), in front of / over dirty memory
+    three = assemble([("PUSH", 0xAAAA), ("PUSH", 0), "MSTORE", ("PUSH", 0), "CALLDATALOAD", ("PUSH", 32), "MSTORE", ("PUSH", 32), "CALLDATALOAD", ("PUSH", 64), "MSTORE",
+                      ("PUSH", 96), ("PUSH", 0), "RETURN"])
+    for dst, off, size in ((0x40, 32, 64), (0x48, 4, 40), (0x140, 64, 32), (0x40, 0, 96)):
+        out.append(_p(f"returndatacopy-offset-{off}-{size}",
+                      [("PUSHN", 32, (1 << 256) - 1), "DUP1", ("PUSH", 0x40), "MSTORE", "DUP1", ("PUSH", 0x60), "MSTORE", ("PUSH", 0x80), "MSTORE",
+                       ("PUSH", 0), "CALLDATALOAD", ("PUSH", 0x200), "MSTORE", ("PUSH", 32), "CALLDATALOAD", ("PUSH", 0x220), "MSTORE",
+                       ("PUSH", 0), ("PUSH", 0), ("PUSH", 64), ("PUSH", 0x200), ("PUSH", 0), ("PUSH", CALLEE), ("PUSH", 0xFFFFF), "CALL", "POP",
+                       ("PUSH", size), ("PUSH", off), ("PUSH", dst), "RETURNDATACOPY", "MSIZE", ("PUSH", 0x1C0), "MSTORE", ("PUSH", 0x1A0), ("PUSH", 0x40), "RETURN"],
+                      accounts={CALLEE: three}, inputs=[{"cd0": 0, "cd1": 0}, {"cd0": 0x1234, "cd1": 0x5678}, {"cd0": (1 << 256) - 2, "cd1": 1 << 255}]))
+    # two elements of the array at slot 1 addressed by PUSH32 constants keccak(1) + i (a hash of halmos' precomputed table,
+    # never computed at run time here): a store to one element does not change the other
+    from eth_hash.auto import keccak
+
+    b1 = int.from_bytes(keccak((1).to_bytes(32, "big")), "big")
+    out.append(_p("precomputed-hash-const-offsets",
+                  [("PUSH", 0), "CALLDATALOAD", ("PUSHN", 32, b1 + 1), "SSTORE", ("PUSH", 0x22), ("PUSHN", 32, b1), "SSTORE", ("PUSHN", 32, b1 + 1), "SLOAD"] + RET,
+                  inputs=[{"cd0": 0, "cd1": 0}, {"cd0": 0x77, "cd1": 0}, {"cd0": (1 << 256) - 3, "cd1": 0}]))
     out += c02_probes()
     out.append(_p("loop-head-at-pc0",
                   [("LABEL", "h"), ("PUSH", 0), "MLOAD", ("PUSHL", "x"), "JUMPI", ("PUSH", 1), ("PUSH", 0), "MSTORE", ("PUSHL", "h"), "JUMP", "INVALID",
